@@ -658,6 +658,9 @@ impl Context {
                 let (stream, is_const) = self.lit_into_ty(l, inner_ty)?;
                 (format! { "{ident}({stream})" }.into(), is_const)
             }
+            (Literal::Map(_), CodegenTy::Map(_, _) | CodegenTy::BTreeMap(_, _)) => {
+                self.lit_as_rvalue(lit, ty)?
+            }
             (Literal::Map(_), CodegenTy::StaticRef(map)) => match &**map {
                 CodegenTy::Map(_, _) | CodegenTy::BTreeMap(_, _) => {
                     let lazy_map =
